@@ -107,7 +107,8 @@ def search_single_thread_prefetch(rep):
     from lazy_dataset.parallel_utils import single_thread_prefetch
     cases = 0
     for n, b in itertools.product((0, 1, 3, 6), (1, 2, 4)):
-        for src_bad, exc in [(None, SrcBoom)] + [(i, SrcBoom) for i in range(n + 1)] + [(i, BaseBoom) for i in range(n + 1)]:
+        for src_bad, exc in [(None, SrcBoom)] + [(i, SrcBoom) for i in range(n + 1)] + [(i, BaseBoom) for i in range(n + 1)] \
+                + [(i, SystemExit) for i in range(n + 1)] + [(i, KeyboardInterrupt) for i in range(0, n + 1, 2)]:
             cases += 1
             got = run_stream(lambda: single_thread_prefetch(_source(n, src_bad, exc), b))
             exp_vals = list(range(n if src_bad is None else src_bad))
